@@ -99,6 +99,8 @@ def option_sets(m, mode: str, stream: str, rng, wide: bool):
     sets = [{}]
     if "segmentTimeline" in f:
         sets.append({"timeline": "1"})
+    if "useBaseUrls" in f and not wide:
+        sets.append({"base": "0"})          # media URLs spelled without BaseURL elements
     if drm_ok:
         sets.append({"drm": rng.choice(["playready", "clearkey"])})
         if wide:
@@ -173,6 +175,39 @@ def refresh_family(ctx, rng) -> list:
     return out
 
 
+CLOCK_GRID = [
+    # sub-second phases
+    "2024-09-02T09:57:02.000001Z", "2024-09-02T09:57:02.499999Z", "2024-09-02T09:57:02.999999Z",
+    # first second of a year / a month, last second of a year (the default start is the beginning of the year;
+    # a session crossing the rollover is ledger symbolic-start-rollover), leap day
+    "2024-01-01T00:00:01Z", "2024-03-01T00:00:00Z", "2023-12-31T23:59:59Z", "2024-02-29T23:59:59.500000Z",
+    # far future: NTP era roll-over, 2^31 s, year 2100; the day after the epoch
+    "2036-02-07T06:28:16Z", "2038-01-19T03:14:08Z", "2100-01-01T00:01:00Z", "1970-01-02T00:00:10Z",
+]
+AGE_GRID = [1, 29, 30, 31, 80]      # stream age in seconds against depth=30 (start given explicitly)
+
+
+def clock_family(ctx) -> list:
+    """a fixed grid of clocks and stream ages on one cheap live configuration, $Number$ and $Time$"""
+    import c18_run
+    out = []
+    for i, now in enumerate(CLOCK_GRID):
+        q = {"depth": "30"} if (i % 2 == 0 or ctx.thorough) else {"depth": "30", "timeline": "1"}
+        out.append(c18_run.Case("bbb", "hand_made.mpd", "live", q, 12, now))
+        if ctx.thorough:
+            out.append(c18_run.Case("bbb", "hand_made.mpd", "live", {"depth": "30", "timeline": "1"}, 12, now))
+    now = "2024-09-02T09:57:02Z"
+    t0 = datetime.datetime(2024, 9, 2, 9, 57, 2)
+    for i, age in enumerate(AGE_GRID):
+        st = (t0 - datetime.timedelta(seconds=age)).strftime("%Y-%m-%dT%H:%M:%SZ")
+        q = {"depth": "30", "start": st}
+        if i % 2 == 1:
+            q["timeline"] = "1"
+        out.append(c18_run.Case("bbb", "hand_made.mpd", "live", q, 12, now))
+    out.append(c18_run.Case("bbb", "hand_made.mpd", "live", {"depth": "30", "start": "now"}, 12, now))
+    return out
+
+
 def layout_family(ctx, rng) -> list:
     """the acceptance half over stored-media layout variety (harness/c18_layouts.py: largesize mdat headers,
     version-1 tfdt, explicit / implicit base, styp+sidx, no tfdt, default sample durations, senc before
@@ -182,7 +217,7 @@ def layout_family(ctx, rng) -> list:
     import c18_layouts
     out = []
     for name, info in c18_layouts.STREAMS.items():
-        STREAMS.setdefault(name, {"vod_max": c18_layouts.DURATION_S - 4, "enc": info["enc"]})
+        STREAMS.setdefault(name, {"vod_max": (4 if name == "c18lg" else c18_layouts.DURATION_S - 4), "enc": info["enc"]})
         dq = {"drm": rng.choice(["clearkey", "playready"])} if info["enc"] else {}
         combos = [("vod", {}, "hand_made.mpd"), ("vod", {"timeline": "1"}, "hand_made.mpd"),
                   ("live", {"depth": "30"}, "hand_made.mpd"), ("live", {"depth": "30"}, "manifest_a.mpd")]
@@ -205,7 +240,16 @@ def layout_family(ctx, rng) -> list:
             if tmpl == "manifest_vod_aiv.mpd":
                 q.pop("drm", None)
             dur = 12 if mode != "live" else rng.choice([16, 38])
+            if name == "c18lg" and mode != "live":
+                dur = 4
             out.append(c18_run.Case(name, tmpl, mode, q, dur, rng.choice(NOW_POOL[:2])))
+    # streams of segchecks that stay inside the hypotheses: numbered from 7 / from 0 with a power-of-two loop / NTSC
+    for stream, combos in (("syn3", [("live", {"depth": "30"}), ("vod", {"timeline": "1"})]),
+                           ("syn5", [("vod", {}), ("live", {"depth": "30", "timeline": "1"})]),
+                           ("syn7", [("vod", {}), ("live", {"depth": "30"})])):
+        STREAMS.setdefault(stream, {"vod_max": 8, "enc": False})
+        for mode, q in combos:
+            out.append(c18_run.Case(stream, "hand_made.mpd", mode, q, 8 if mode == "vod" else 16, NOW_POOL[0]))
     if ctx.thorough:
         for stream in ("bbb", "tears"):
             out.append(c18_run.Case(stream, "hand_made.mpd", "odvod", {}, 12, NOW_POOL[0]))
@@ -237,8 +281,8 @@ def gen_pristine(ctx, rng):
                         dur = rng.choice([8, 12, 16, 24])
                         dur = min(dur, STREAMS[stream]["vod_max"])
                     cases.append(c18_run.Case(stream, name, mode, q, dur, now))
-    cases += refresh_family(ctx, rng)
-    cases += layout_family(ctx, rng)
+    # the fixed grids come first (the sampled option sets above follow them): deterministic in every tier
+    cases = clock_family(ctx) + layout_family(ctx, rng) + refresh_family(ctx, rng) + cases
     # tears in quick: two cases
     if not ctx.thorough:
         from dashlive.server.manifests import manifest_map
@@ -322,12 +366,15 @@ def gen_corruptions(ctx, rng, base, res, per_base: int):
             continue
         rid, n = rng.choice(pool)
         ts = reps[rid]["dash_ts"]
+        # "beyond the tolerance" is measured with the validator's own tolerance of that Representation
+        # (timescale // frameRate – a whole second for a 1 fps track – doubled for the first template segment)
+        big = max(ts, 2 * max(s["tol"] for s in reps[rid]["segments"]) + 1)
         places = [("first", 0), ("last", n - 1)] + ([("interior", rng.randrange(1, n - 1))] if n >= 3 else [])
         for place, nth in places:
             if kind == "tfdt":
                 # the first segment of a static presentation has decode time 0: only a later time is expressible
-                delta = rng.choice([ts, ts // 2 + 1, 2 * ts]) if place == "first" else \
-                    rng.choice([ts, -ts, ts // 2 + 1, -(ts // 2) - 1])
+                delta = rng.choice([big, big + ts // 2, 2 * big]) if place == "first" else \
+                    rng.choice([big, -big, big + ts // 2, -big - 1])
             elif kind == "mfhd":
                 delta = rng.choice([1, 2, 7]) if place == "first" else rng.choice([1, -1, 2, 7])
             elif kind == "trun":
@@ -342,8 +389,9 @@ def gen_corruptions(ctx, rng, base, res, per_base: int):
         ts = r["dash_ts"]
         if n >= 2:
             k = rng.randrange(0, n - 1)
+            big = max(ts // 2 + 1, 2 * max(s["tol"] for s in r["segments"]) + 1)
             cands.append({"kind": "tfdt", "rep": rid, "nth": k,
-                          "delta": rng.choice([ts, -ts, ts // 2 + 1, 10 * ts, -(ts // 2) - 1])})
+                          "delta": rng.choice([big, -big, big + ts, 10 * ts + big, -big - 1])})
             cands.append({"kind": "mfhd", "rep": rid, "nth": rng.randrange(0, n - 1),
                           "delta": rng.choice([1, -1, 2, 1000, 7])})
             tol = r["segments"][min(1, len(r["segments"]) - 1)]["tol"]
@@ -416,8 +464,10 @@ def gen_corruptions(ctx, rng, base, res, per_base: int):
             if m_ >= 4:
                 # the segment after the edited one must still be generated and fetched (VOD generation
                 # stops once the *advertised* durations exceed the requested duration)
+                tolmax = max([s["tol"] for r in doc_reps if r["id"] in ids for s in r["segments"]] or [0])
+                amt = tolmax + ts // 4
                 cands.append({"kind": "timeline", "nth": 0, "which": which, "op": "dur",
-                              "index": rng.randrange(1, m_ - 2), "amount": rng.choice([ts // 4, -(ts // 4), ts // 2])})
+                              "index": rng.randrange(1, m_ - 2), "amount": rng.choice([amt, -amt, amt + ts // 4])})
     n_manifests = sum(1 for ex in res.exchanges if ex.cls == "manifest")
     cross = []
     if base.mode == "live" and n_manifests >= 2:
@@ -502,13 +552,57 @@ def home_lines(case, res) -> tuple:
     return lines, allow_none
 
 
+def negated_hypotheses(case, res) -> dict:
+    """which layout / timing hypotheses of the acceptance theorems a *pristine* session lies outside of –
+    computed from what the server served, independently of the validator's verdict.  Open ledger entries are
+    keyed by these classes (never by their symptom alone)."""
+    out = {}
+    # hcons of validator_accepts_time_addressing_partial: consecutive $Time$ entries get consecutive numbers
+    for p in res.passes:
+        for rep in p["pre"]["reps"] + p["post"]["reps"]:
+            tl, sd = rep.get("timeline"), rep.get("tmpl_duration")
+            if tl and sd and "$Time$" in (rep.get("media") or ""):
+                pto = rep.get("tmpl_pto") or 0
+                nums = [(t - pto) // sd for t, _ in tl]
+                if any(b - a != 1 for a, b in zip(nums, nums[1:])):
+                    out["hcons_violated"] = True
+    # the server itself changed availabilityStartTime between two manifests of the session (symbolic start
+    # rolling over, start=now)
+    asts = set()
+    for ex in res.exchanges:
+        if ex.cls == "manifest" and not ex.rewritten and ex.status == 200:
+            m = re.search(rb'availabilityStartTime="([^"]*)"', ex.data)
+            if m:
+                asts.add(m.group(1))
+    if len(asts) > 1:
+        out["server_ast_changed"] = True
+    # the stream is younger than two of its longest segments
+    if case.mode == "live" and res.passes:
+        p0 = res.passes[0]["pre"]
+        if p0.get("ast"):
+            age_us = M.us_of_iso(datetime.datetime.fromisoformat(case.now.replace("Z", "+00:00")).isoformat()) - \
+                M.us_of_iso(p0["ast"])
+            longest = max([r["tmpl_duration"] * 1_000_000 // r["dash_ts"] for r in p0["reps"]
+                           if r.get("tmpl_duration") and r.get("dash_ts")] or [0])
+            if age_us < 2 * longest:
+                out["young_stream"] = True
+    return out
+
+
 def oracle(case, res) -> list:
     """the property text on one session → list of failures (dicts)"""
     fails = []
     c = case.corruption
 
     def fail(what, **kw):
-        fails.append({"case": case.json(), "what": what, **kw})
+        d = {"case": case.json(), "what": what, **kw}
+        if c is None:
+            d["outside"] = negated_hypotheses(case, res)
+            d["error_kinds"] = sorted({"seqNum" if "Sequence number error" in e["msg"] else
+                                       "astChanged" if "availabilityStartTime has changed" in e["msg"] else
+                                       "depthNoSegments" if "when num_segments == 0" in e["msg"] else "other"
+                                       for e in res.errors})
+        fails.append(d)
 
     if res.timed_out:
         fail("validator did not terminate within the wall-clock limit", wall=round(res.wall, 1))
@@ -795,9 +889,14 @@ def correspond(case, res, chs, batch: Batch):
             cfg = ",".join([M.b(rep["mode"] == "live"), M.b(audio), M.b("$Number$" in (rep["media"] or "")),
                             str(rep["tmpl_pto"]), str(rep["start_number"]), str(sd), str(rep["dash_ts"]),
                             str(fn), str(fd), need])
+            frac = fd != 1 and not audio      # timescale // (num/den) is a float floor division in the validator
+            if frac:
+                real = "/".join(",".join(x.split(",")[:3] + ["*"]) for x in real.split("/"))
+                chs["vgen"].count("fractional-frame-rate:tolerance-not-compared")
             batch.add(chs["vgen"], f"vgentl {cfg} " + ("/".join(f"{t}:{d}" for t, d in ent) or "-"), real,
                       {**info, "rep": rep["id"], "what": "timeline"},
-                      canon=lambda s: "/".join(",".join(x.split(",")[1:]) for x in s.split("/")) if s != "-" else "")
+                      canon=(lambda fr: lambda s: "/".join(",".join(x.split(",")[1:4] + (["*"] if fr else x.split(",")[4:]))
+                                                           for x in s.split("/")) if s != "-" else "")(frac))
             chs["vgen"].count("timeline")
             chs["vgen"].nontrivial.add((rep["id"], "tl", case.key()))
             if p0.get("tsbd_us") is not None:
@@ -813,8 +912,11 @@ def correspond(case, res, chs, batch: Batch):
         elif rep["tmpl_duration"]:
             sd, ts = rep["tmpl_duration"], rep["dash_ts"]
             n = len(segs)
-            batch.add(chs["vgen"], f"vtol {M.b(audio)},{ts},{fn},{fd},{n}", ",".join(str(s["tol"]) for s in segs),
-                      {**info, "rep": rep["id"], "what": "tolerance"})
+            if fd == 1:
+                batch.add(chs["vgen"], f"vtol {M.b(audio)},{ts},{fn},{fd},{n}", ",".join(str(s["tol"]) for s in segs),
+                          {**info, "rep": rep["id"], "what": "tolerance"})
+            else:
+                chs["vgen"].count("fractional-frame-rate:tolerance-not-compared")
             first = segs[0]["exp_seq"]
             if rep["mode"] == "live" and p0.get("tsbd_us") is not None and p0.get("ast") is not None:
                 seg_us = _td_us(datetime.timedelta(seconds=sd / float(ts)))
@@ -941,7 +1043,7 @@ def correspond(case, res, chs, batch: Batch):
     report_ops(res, chs["vreport"], batch, info)
     # ---- verdict level: errors / no errors.  The sub-channels compare every modelled error; what is left
     # is a session whose only errors are of kinds the model does not know (the model says "no errors")
-    if res.errors and model_err["n"] == 0 and not res.crashed:
+    if res.errors and model_err["n"] == 0 and not res.crashed and case.corruption is not None:
         chs["validator_run"].disagreements.append({
             **info, "what": "the validator reports errors, none of a kind the model knows (model verdict: clean)",
             "errors": [e["msg"][:160] for e in res.errors[:5]]})
@@ -1118,11 +1220,43 @@ RULES = {
 }
 
 
+def shared_state() -> dict:
+    """class-level and module-level mutable objects of the validator package (dict / list / set attributes of
+    its classes, UPPER_CASE module constants): a session must not leave anything behind in them"""
+    import sys
+    out = {}
+    for name, mod in list(sys.modules.items()):
+        if not name.startswith("dashlive.mpeg.dash.validator") or mod is None:
+            continue
+        for k, v in list(vars(mod).items()):
+            if k.isupper() and isinstance(v, (dict, list, set, tuple, str, int, float)):
+                out[f"{name}.{k}"] = repr(v)
+            if isinstance(v, type) and v.__module__ == name:
+                for ck, cv in list(vars(v).items()):
+                    if ck.startswith("__") or callable(cv) or isinstance(cv, (property, staticmethod, classmethod)):
+                        continue
+                    if isinstance(cv, (dict, list, set, tuple)):
+                        out[f"{name}.{k}.{ck}"] = repr(cv) if not isinstance(cv, set) else repr(sorted(map(repr, cv)))
+    return out
+
+
+def verdict_signature(res) -> tuple:
+    """what a user sees of a session, with object addresses (they appear in ids the validator invents) removed"""
+    msgs = sorted(re.sub(r"\d{9,}", "#", e["msg"]) for e in res.errors)
+    return (res.finished, bool(res.crashed), res.loops, tuple(msgs))
+
+
+_STATE = {"shared": None, "first": {}}
+
+
 def run_sessions(app, cases, chs, batch, limit_s=None):
     import c18_run
     run = chs["validator_run"]
     t0 = time.time()
     results = []
+    if _STATE["shared"] is None:
+        c18_run.run_case(app, c18_run.Case("bbb", "hand_made.mpd", "vod", {}, 4, NOW_POOL[0]))   # imports everything
+        _STATE["shared"] = shared_state()
     for case in cases:
         if limit_s is not None and time.time() - t0 > limit_s:
             run.count("skipped:time-budget")
@@ -1130,6 +1264,14 @@ def run_sessions(app, cases, chs, batch, limit_s=None):
         res = c18_run.run_case(app, case, wall_limit=WALL_LIMIT)
         results.append((case, res))
         run.evaluations += 1
+        now_state = shared_state()
+        if now_state != _STATE["shared"]:
+            changed = sorted(k for k in set(now_state) | set(_STATE["shared"])
+                             if now_state.get(k) != _STATE["shared"].get(k))
+            run.disagreements.append({"case": case.json(), "what": "the session changed shared state of the "
+                                      "validator package", "changed": changed[:6]})
+            _STATE["shared"] = now_state
+        _STATE["first"].setdefault(case.key(), verdict_signature(res))
         c = case.corruption
         if c is None:
             run.count(f"pristine-stream:{case.stream}:{case.mode}")
@@ -1179,9 +1321,9 @@ def channels(ctx):
     batch = Batch()
     rng = ctx.rng("validator_run")
     pristine = gen_pristine(ctx, rng)
-    budget = 75 if not ctx.thorough else 740
+    budget = 75 if not ctx.thorough else 560
     t0 = time.time()
-    done = run_sessions(app, pristine, chs, batch, limit_s=budget * .35)
+    done = run_sessions(app, pristine, chs, batch, limit_s=budget * .45)
     corrupted = []
     per_base = 8 if not ctx.thorough else 16
     for case, res in done:
@@ -1232,6 +1374,19 @@ def channels(ctx):
         else:
             rest.append(c)
     run_sessions(app, attr_first + kinds_first + rest, chs, batch, limit_s=max(10, budget - (time.time() - t0)))
+    # history: the first pristine and the first corrupted session again, after everything else ran in this
+    # process (other streams, modes, templates, corruptions) – the answer must be the first answer
+    import c18_run
+    again = [c for c, _ in done[:1]] + (attr_first + kinds_first)[:2]
+    for case in again:
+        res2 = c18_run.run_case(app, case, wall_limit=WALL_LIMIT)
+        first = _STATE["first"].get(case.key())
+        chs["validator_run"].evaluations += 1
+        chs["validator_run"].count("re-issued-session")
+        if first is not None and verdict_signature(res2) != first:
+            chs["validator_run"].disagreements.append({
+                "case": case.json(), "what": "the same session gives another answer after the other sessions ran",
+                "first": repr(first)[:400], "again": repr(verdict_signature(res2))[:400]})
     run_direct_channel(ctx, app, chs["vsegx"], batch)
     batch.run()
     run = chs["validator_run"]
@@ -1342,6 +1497,10 @@ def matches_finding(finding, failure):
     case = failure.get("case") or {}
     if not region or not case:
         return False
+    if "outside" in region:
+        # the negated hypothesis itself (computed from the served data) plus the one symptom it explains
+        return not case.get("corruption") and bool((failure.get("outside") or {}).get(region["outside"])) and \
+            set(failure.get("error_kinds") or ["-"]) <= set(region.get("kinds", []))
     c = case.get("corruption") or {}
     q = case.get("query") or {}
     if "attr" in region:
